@@ -59,6 +59,9 @@ CLAIMED = {
  "C06": ("determinism lint over the consensus call graph: forbidden-API census, map-range body classification, RNG typestate (create→Seed→draw on all paths) with seed provenance, forward float-taint, proto map-field census",
          "no nondeterministic source, order-sensitive map range, unseeded or non-consensus-seeded generator, float-to-state flow or proto map in stored types anywhere in the custom code reachable from Msg handlers, BeginBlock, InitGenesis, the wasm dispatcher and upgrade code. Third-party library determinism and gas equality are trusted, not decided.",
          "DESIGN.md §5 C06"),
+ "C05": ("panic-guard analysis over the BeginBlock call graph: zero-guard path search for divisors, parameter-validator lower bounds, field-write census, a small interprocedural sign domain for coin amounts, explicit-panic/Must* census, constant-index guard check",
+         "in every custom function reachable from the two BeginBlockers: each non-constant divisor is zero-guarded or comes from a validated-positive parameter / positive call sites; each coin amount is non-negative in the sign domain (two reviewed exceptions for the gauge interval/release arithmetic); user-sized message fields are validated at the door; no explicit panic or Must* on variable input; constant indices guarded. Variable-index range errors, nil dereference, type assertions, SDK-internal panics and resource exhaustion are NOT decided.",
+         "DESIGN.md §5 C05"),
 }
 NA = {}
 props = [json.loads(l) for l in open('properties.jsonl')]
